@@ -442,3 +442,56 @@ def signature_old(prog, symptom: str) -> str:
             fc += "-own" if f.startswith("\n") else "-inline"
     slot = prog.get("slot")
     return f"{prog['template']}|{prog['id'].split('|')[1]}|slot={slot}|{fc}|{symptom}"
+
+
+# ---------------------------------------------------------------------------------------------
+# fault enumeration (C07, C20)
+
+DELIM_INSERTS = ["{", "}", "(", ")", "[", "]", ";", "=", '"', "''", "${", ":", ",", ".", "in", "then"]
+WRAPS = [("", ""), ("\n  ", ""), ("", "  \n\n"), (" \t\n", "\n \n")]
+
+
+def seed_programs(tier):
+    seen = set()
+    for name, fid, toks in base_programs("quick"):
+        if fid != "atoms" and not (tier == "thorough" and fid.startswith("h0=")):
+            continue
+        text = glue(render(toks))
+        if text in seen or has_error(parse_cst(text)):
+            continue
+        seen.add(text)
+        yield name, toks, text
+
+
+def faults(tier):
+    """Yield damaged texts: every token deleted / duplicated, every delimiter inserted at every
+    token boundary, truncation at every byte, each with surrounding whitespace variants."""
+    seen = set()
+    for name, toks, text in seed_programs(tier):
+        words = [w for _k, w in toks]
+        cands = []
+        for i in range(len(words)):
+            cands.append(("del", " ".join(words[:i] + words[i + 1:])))
+            cands.append(("dup", " ".join(words[:i + 1] + words[i:])))
+        for i in range(len(words) + 1):
+            for d in (DELIM_INSERTS if tier == "thorough" else DELIM_INSERTS[:10]):
+                cands.append(("ins", " ".join(words[:i] + [d] + words[i:])))
+        b = text.rstrip("\n").encode("utf-8")
+        for k in range(1, len(b)):
+            try:
+                cands.append(("trunc", b[:k].decode("utf-8")))
+            except UnicodeDecodeError:
+                pass
+        for kind, t in cands:
+            t = glue(t)
+            for pre, post in (WRAPS if kind != "trunc" else WRAPS[:2]):
+                full = pre + t + post
+                if full in seen:
+                    continue
+                seen.add(full)
+                yield dict(id=f"{name}|{kind}", text=full, kind=kind, template=name)
+    for t in ["", " ", "\n", "hello world", "}{", "=", "''", '"', "/* unterminated", "# only a comment\n", "\x00", "é", "{ a = 1; } }",
+              "1 2", "a b c", "let", "in", ";;", "${", "\\", "﻿{ }", "{ a = 1; }\x0c"]:
+        if t not in seen:
+            seen.add(t)
+            yield dict(id="misc", text=t, kind="misc", template="misc")
